@@ -256,6 +256,11 @@ def run_case(case):
                     continue
                 leased = sorted(before.items())
                 rid, addr = leased[ev[1] % len(leased)]
+                if len(ev) > 2:  # a given address instead of the k-th lease
+                    hit = [(i, a) for i, a in leased if a == ev[2]]
+                    if not hit:
+                        continue
+                    rid, addr = hit[0]
                 if kind == "rel_msg":
                     env.inject(rfrag.pack_header(addr, 0, 2, 197, 0), netaddr.digits(addr)[0])
                 else:
@@ -338,6 +343,17 @@ def _relay_sweep():
             yield {"prefill": [[7, via]] + full_parent(via, leave=leave), "events": [["req", 200, via], ["req", 200, via], ["req", 201, via]]}
 
 
+def _refuse_release_sweep():
+    """every relay address of level 1..3 (and the master) with all its child slots leased: a new ID is refused, one child
+    (each in turn) releases by message or through the API, another new ID asks through the same relay and must be served"""
+    for via in [0] + [a for a in netaddr.all_nodes() if 1 <= netaddr.level(a) <= 3]:
+        kids = full_parent(via)
+        for _i, child in kids:
+            for how in ("rel_msg", "rel_api"):
+                yield {"prefill": ([[7, via]] if via else []) + kids,
+                       "events": [["req", 200, via or None], [how, 0, child], ["req", 201, via or None], ["req", 200, via or None]]}
+
+
 def _busy_sweep():
     """the second request arrives 1..70 ms after the relayed one was delivered (the master waits up to route_timeout)"""
     for via in (0o11, 0o32, 0o123, 0o445):
@@ -376,6 +392,6 @@ def _persist_strategy():
 def parts(tier):
     if tier == "quick":
         return [Part("enum-events-depth3", "enum", _enum(3), exhaustive=True), Part("relay-sweep", "enum", _relay_sweep, exhaustive=True),
-                Part("request-during-wait-sweep", "enum", _busy_sweep, exhaustive=True), Part("generated", "gen", _strategy, n=1000), Part("persistence", "gen", _persist_strategy, n=150)]
+                Part("refused-then-released-sweep", "enum", _refuse_release_sweep, exhaustive=True), Part("request-during-wait-sweep", "enum", _busy_sweep, exhaustive=True), Part("generated", "gen", _strategy, n=1000), Part("persistence", "gen", _persist_strategy, n=150)]
     return [Part("enum-events-depth4", "enum", _enum(4), exhaustive=True), Part("relay-sweep", "enum", _relay_sweep, exhaustive=True),
-            Part("request-during-wait-sweep", "enum", _busy_sweep, exhaustive=True), Part("generated", "gen", _strategy, n=50000), Part("persistence", "gen", _persist_strategy, n=5000)]
+            Part("refused-then-released-sweep", "enum", _refuse_release_sweep, exhaustive=True), Part("request-during-wait-sweep", "enum", _busy_sweep, exhaustive=True), Part("generated", "gen", _strategy, n=50000), Part("persistence", "gen", _persist_strategy, n=5000)]
